@@ -63,8 +63,11 @@ def validate(prop, module, trace_path, rep, describe_case, nchunks=16, boundary=
                     f.writelines(c)
             r = tlc_trace(module, path, f"{run_prefix}_{ci}", timeout=timeout, invariants=invariants)
             states += r["distinct"]
+            for (ln, evj) in r.get("rejects", []):
+                ev = json.loads(evj)
+                rejected.append((ev, ev, None, []))
             if r["ok"]:
-                validated_cases += len(mycases)
+                validated_cases += len(mycases) - len(r.get("rejects", []))
                 break
             if r["unmatched"] is None:
                 if r["violated"]:
